@@ -306,7 +306,8 @@ struct Dump {
 static DUMP: Mutex<Option<Dump>> = Mutex::new(None);
 
 fn arm_watchdog(job: &Value, pid: i32, ncmd: usize) {
-    let secs = num(job, "cmd_timeout", 25) as u64;
+    // the first command parses the debug information of every shared object: slow on a loaded machine
+    let secs = if ncmd == 1 { num(job, "start_timeout", 180) } else { num(job, "cmd_timeout", 30) } as u64;
     *DUMP.lock().unwrap() = Some(Dump { job: job.clone(), pid, ncmd, deadline: Instant::now() + Duration::from_secs(secs) });
 }
 fn disarm_watchdog() {
